@@ -319,14 +319,22 @@ fn split(s: &str) -> Vec<String> {
 }
 
 impl C06Node {
-    fn random_htlc(rng: &mut Rng, outgoing: bool) -> H {
+    /// `plain`: only the standard cltv values (no cltv-delta refusals).  Used in cases that contain a
+    /// u64-extreme approval: `validate_payments` returns the cltv refusal of one hash early (`?`) while
+    /// the overflow panic of another hash happens in the same loop over an unordered set, so the result
+    /// class of such an update depends on the set's iteration order.
+    fn random_htlc(rng: &mut Rng, outgoing: bool, plain: bool) -> H {
+        if plain {
+            let (h, v, _) = Self::random_htlc(rng, outgoing, false);
+            return (h, v, if outgoing { 500 } else { 600 });
+        }
         let h = rng.below(NHASH as u64) as usize;
         let v = *rng.pick(&[600u64, 2000, 2200, 2220, 50_000, 50_222, 50_223, 100_000, 100_222, 100_223, 200_000]);
         let cltv = if outgoing { *rng.pick(&[500u32, 500, 500, 515, 610]) } else { *rng.pick(&[600u32, 600, 600, 520]) };
         (h, v, cltv)
     }
     /// mutate a view given as (outgoing, incoming) lists
-    fn mutate(rng: &mut Rng, out: &mut Vec<H>, inc: &mut Vec<H>, mirror: (&Vec<H>, &Vec<H>)) {
+    fn mutate(rng: &mut Rng, out: &mut Vec<H>, inc: &mut Vec<H>, mirror: (&Vec<H>, &Vec<H>), plain: bool) {
         match rng.below(100) {
             0..=34 => {
                 *out = mirror.0.clone();
@@ -335,10 +343,10 @@ impl C06Node {
             35..=74 => {
                 if rng.chance(3, 5) {
                     if out.len() < 4 {
-                        out.push(Self::random_htlc(rng, true));
+                        out.push(Self::random_htlc(rng, true, plain));
                     }
                 } else if inc.len() < 4 {
-                    inc.push(Self::random_htlc(rng, false));
+                    inc.push(Self::random_htlc(rng, false, plain));
                 }
             }
             75..=93 => {
@@ -439,6 +447,8 @@ impl Group for C06Node {
         let mut ops = vec![format!("init {}", nch)];
         let mut now = T0;
         let mut sims: Vec<Sim> = vec![Sim::default(); nch];
+        // cases with u64-extreme approvals (overflow panics) use plain cltv values only, see random_htlc
+        let extreme = rng.chance(1, 6);
         let len = rng.range(6, if tier == Tier::Quick { 18 } else { 40 }) as usize;
         // most cases start with one or two approvals so that outgoing HTLCs have something to pay
         for _ in 0..rng.below(3) {
@@ -477,8 +487,9 @@ impl Group for C06Node {
                 0..=11 => {
                     let h = rng.below(NHASH as u64);
                     let amt = match rng.below(20) {
-                        0 => u64::MAX,
-                        1 => u64::MAX - 222_000,
+                        0 if extreme => u64::MAX,
+                        1 if extreme => u64::MAX - 222_000,
+                        0 | 1 => 100_222_000,
                         2 => 1,
                         3 | 4 => 2_000_000,
                         5 | 6 => 50_000_000,
@@ -490,7 +501,7 @@ impl Group for C06Node {
                 12..=26 => {
                     // full add of one HTLC on one channel: three requests in one of two orders
                     let outgoing = rng.chance(3, 5);
-                    let htlc = Self::random_htlc(rng, outgoing);
+                    let htlc = Self::random_htlc(rng, outgoing, extreme);
                     let s = &mut sims[c];
                     let cp_first = rng.chance(1, 2);
                     if outgoing {
@@ -518,7 +529,7 @@ impl Group for C06Node {
                 27..=46 => {
                     let s = &mut sims[c];
                     let (mo, mi) = (s.h_out.clone(), s.h_inc.clone());
-                    Self::mutate(rng, &mut s.cp_out, &mut s.cp_inc, (&mo, &mi));
+                    Self::mutate(rng, &mut s.cp_out, &mut s.cp_inc, (&mo, &mi), extreme);
                     if rng.chance(9, 10) {
                         ops.push(format!("cprevoke {}", c));
                     }
@@ -527,21 +538,21 @@ impl Group for C06Node {
                 47..=62 => {
                     let s = &mut sims[c];
                     let (mo, mi) = (s.cp_out.clone(), s.cp_inc.clone());
-                    Self::mutate(rng, &mut s.h_out, &mut s.h_inc, (&mo, &mi));
+                    Self::mutate(rng, &mut s.h_out, &mut s.h_inc, (&mo, &mi), extreme);
                     ops.push(s.hval(c, "new"));
                 }
                 63..=78 => ops.push(format!("revoke {}", c)),
                 79..=82 => {
                     let mut s = sims[c].clone();
                     if rng.chance(1, 4) {
-                        s.cp_out.push(Self::random_htlc(rng, true));
+                        s.cp_out.push(Self::random_htlc(rng, true, extreme));
                     }
                     ops.push(s.cpsign(c, "retry"));
                 }
                 83..=85 => {
                     let mut s = sims[c].clone();
                     if rng.chance(1, 4) {
-                        s.h_inc.push(Self::random_htlc(rng, false));
+                        s.h_inc.push(Self::random_htlc(rng, false, extreme));
                     }
                     ops.push(s.hval(c, "retry"));
                 }
